@@ -38,6 +38,9 @@ var importSwap = map[string]string{
 	"golang.org/x/sync/errgroup": "vrt/verrgroup",
 }
 
+// packages whose function entries count steps (deterministic work measure for C15)
+var tickPkgs = map[string]bool{modPath + "/graphql": true, modPath + "/federation": true}
+
 var shimmedPkgs = map[string]bool{"sync": true, "sync/atomic": true, "time": true, "golang.org/x/sync/errgroup": true}
 
 type edit struct {
@@ -358,12 +361,12 @@ func (f *fileRW) collect() {
 		case *ast.RangeStmt:
 			f.rangeStmt(x)
 		case *ast.FuncDecl:
-			if *tick && x.Body != nil {
+			if (*tick || tickPkgs[f.pkg.PkgPath]) && x.Body != nil {
 				s := f.off(x.Body.Lbrace) + 1
 				f.addRange(s, s, func() string { return " vrt_rt.Tick(); " })
 			}
 		case *ast.FuncLit:
-			if *tick {
+			if *tick || tickPkgs[f.pkg.PkgPath] {
 				s := f.off(x.Body.Lbrace) + 1
 				f.addRange(s, s, func() string { return " vrt_rt.Tick(); " })
 			}
